@@ -97,6 +97,7 @@ bool g_excl_f1 = false;   // sim.unpublished_reader_remainder_stall
 bool g_excl_f10 = false;  // sim.first_log_between_cache_refresh_and_ts_now
 bool g_excl_f11 = false;  // sim.drops_of_exited_thread_unreported
 bool g_excl_f2 = false;   // sim.nonstd_exception_from_formatter
+bool g_bt_throws = false; // parameter bt_throws=1: a sink throws when a chosen backtrace statement is replayed (C10 x C18)
 bool g_excl_f3 = false;   // sim.backtrace_index_not_reset
 bool g_excl_f9 = false;   // sim.invalid_context_counter_wraps_at_256
 
@@ -125,6 +126,7 @@ struct ThrowPlan
 {
   std::set<long> write_calls; // 1-based indices of write_log calls that throw
   std::set<long> flush_calls;
+  std::set<std::string> throw_ids; // "w:seq" of statements for which this sink's write_log throws (once)
 };
 
 void journal_push(JEntry e);
@@ -160,7 +162,17 @@ public:
                  std::vector<std::pair<std::string, std::string>> const* na, std::string_view msg, std::string_view stmt) override
   {
     ++writes;
-    if (plan.write_calls.count(writes))
+    bool by_id = false;
+    if (!plan.throw_ids.empty())
+    {
+      size_t a = msg.find(':'), b = a == std::string_view::npos ? a : msg.find(':', a + 1);
+      if (b != std::string_view::npos)
+      {
+        auto it = plan.throw_ids.find(std::string{msg.substr(0, b)});
+        if (it != plan.throw_ids.end()) { plan.throw_ids.erase(it); by_id = true; }
+      }
+    }
+    if (by_id || plan.write_calls.count(writes))
     {
       journal_push(JEntry{_idx, 'X', std::string{logger}, std::string{tid}, ts, static_cast<int>(lvl), std::string{msg}, {}});
       throw std::runtime_error("injected write_log failure in sink " + std::to_string(_idx));
